@@ -131,6 +131,7 @@ func runHistory(hdr Header, c any, src string) CaseResult {
 	resolved := map[string]*jsonschema.Resolved{}
 	snap := func() string { return dump(roots["A"]) + "|" + dump(roots["B"]) + "|" + dump(&rem) }
 	var trail []string
+	modified := false
 	hb, _ := json.Marshal(cm["hist"])
 	res.Key = string(hb)
 	for _, h := range abs.Seq(cm["hist"]) {
@@ -179,11 +180,12 @@ func runHistory(hdr Header, c any, src string) CaseResult {
 				Detail: "the result of a call depends on the calls made before it"})
 			return res
 		}
-		if after := snap(); after != before {
+		if after := snap(); after != before && !modified {
+			modified = true
 			res.Failures = append(res.Failures, Failure{Kind: "input-modified", Source: src, Abstract: c,
 				Concrete: map[string]any{"calls_so_far": trail}, Expected: before, Got: after,
 				Detail: "a Schema object owned by the caller (root or Loader document) was modified"})
-			return res
+			// keep going: what the modification does to later calls is a separate observation (kind history)
 		}
 	}
 	res.Nontrivial = len(trail) > 1
